@@ -122,7 +122,23 @@ impl Check for C13 {
                 source = crate::checks::camt::SOURCE.to_string();
             } else {
                 let fl = if rng.chance(1, 2) { 17 } else { 15 };
-                let c = crate::checks::csvimp::gen_sc_pub(rng, fl);
+                let mut c = crate::checks::csvimp::gen_sc_pub(rng, fl);
+                // someone edited the configuration and broke several field templates at once
+                // (the import fails; it must name the same one every time)
+                if rng.chance(1, 5) {
+                    let bad = ["{nope}", "{0}", "{unclosed", "{payee} {}", "{-1}"];
+                    for d in c.docs.iter_mut() {
+                        if let Some(f) = d.format.as_mut() {
+                            let mut k = 0;
+                            for key in ["note", "category", "charge", "rate", "secondary_amount", "secondary_commodity", "commodity", "balance"] {
+                                if rng.chance(1, 2) {
+                                    f.fields.insert(key.to_string(), crate::imp::Pos::Template(bad[(k + rng.usize(2)) % bad.len()].to_string()));
+                                    k += 1;
+                                }
+                            }
+                        }
+                    }
+                }
                 world.extra.insert("/w/import.yml".to_string(), crate::imp::docs_yaml(&c.docs));
                 let mut csv = crate::imp::render_csv(&c.layout, &c.statements[0]);
                 // the bank changed its export: some header labels no longer match the
@@ -341,9 +357,29 @@ impl Check for C13 {
                     continue;
                 }
                 let sim = observe(&files, &no_faults, &Proc::plain(sc.procs[0].hash_seed), sc.today[0], cmd, out);
+                let again = run_real(&plain, cmd);
                 match run_real(&plain, cmd) {
                     Some((ok, stdout)) => {
                         out.count("traces_validated_against_shipped_binary");
+                        if let Some((ok2, stdout2)) = &again {
+                            if *ok2 != ok || *stdout2 != stdout {
+                                // two OS processes of the shipped binary, each with its own hash seed
+                                out.violate_keyed(
+                                    "C13/real-process",
+                                    cmd[0].clone(),
+                                    format!("{}: two processes of the shipped binary on the same real directory", cmd[0]),
+                                    format!(
+                                        "argv={:?}\n--- shipped binary, first process (ok={}) ---\n{}\n--- shipped binary, second process (ok={}) ---\n{}",
+                                        cmd,
+                                        ok2,
+                                        String::from_utf8_lossy(stdout2),
+                                        ok,
+                                        String::from_utf8_lossy(&stdout)
+                                    ),
+                                );
+                                continue;
+                            }
+                        }
                         if ok != sim.ok || (ok && stdout != sim.stdout) {
                             out.violate_keyed(
                                 "C13/real-process",
